@@ -3,8 +3,8 @@ import sys
 
 from props import _cluster
 
-THEOREMS = ['XmlDiffModel.C01_diff_then_patch', 'XmlDiffModel.C01_script_reaches_right', 'XmlDiffModel.C01_patch_reproduces_working_copy', 'XmlDiffModel.C01_final_wf', 'XmlDiffModel.C05_strict_refines_to_shipped']
-PARTIAL = {'C01_namespaces_and_totality': 'proved for the whole model pipeline (match, script generation, shipped patcher), documents of any size, every similarity oracle and option set with F > 0: whenever the differ does not raise, the patcher accepts the script and its result equals the right document in tags, texts, tails, comments, child order and every non-ignored attribute (attribute order does not matter) - C01_diff_then_patch; for every one-to-one, root-pairing, kind-respecting matching - C01_script_reaches_right. NOT proved: that the differ never raises on the C01 domain (hypothesis scriptGen = ok), and namespaced documents (prefix registration, InsertNamespace); both are decided per run by the oracles.'}
+THEOREMS = ['XmlDiffModel.C01_roundtrip', 'XmlDiffModel.C01_differ_completes', 'XmlDiffModel.C01_diff_then_patch', 'XmlDiffModel.C01_script_reaches_right', 'XmlDiffModel.C01_patch_reproduces_working_copy', 'XmlDiffModel.C01_final_wf', 'XmlDiffModel.C05_strict_refines_to_shipped']
+PARTIAL = {'C01_namespaces': 'proved for the whole model pipeline (match, script generation, shipped patcher), documents of any size, every similarity oracle and option set with F > 0: the differ completes without raising (C01_differ_completes), the patcher accepts the script, and the result equals the right document in tags, texts, tails, comments, child order and every non-ignored attribute, attribute order aside (C01_roundtrip; for every one-to-one, root-pairing, kind-respecting matching: C01_script_reaches_right). NOT proved: namespaced documents (prefix registration, InsertNamespace) are outside the model and decided per run by the oracle stream; the tie between model and code is the correspondence, not a proof.'}
 LEAN_MODULES = ['XmlDiffModel.Props.C01', 'XmlDiffModel.Props.Replay', 'XmlDiffModel.Props.C05']
 SOURCES = ['diff.Differ.match', 'diff.Differ.diff', 'diff.Differ.node_ratio', 'diff.Differ.find_pos', 'diff.Differ.align_children', 'diff.Differ.update_node_attr', 'diff.Differ.update_node_text', 'diff.Differ.update_node_tag', 'patch.Patcher', 'utils.getpath', 'utils.longest_common_subsequence']
 RULE = "Differ cluster: seeded random document pairs (60% mutation chains of the left document, 40% independent, a duplicate-heavy stream) x random diff options (F, ratio_mode, fast/best match, uniqueattrs); each case: real Differ.match/diff and Patcher vs. the Lean model (U1 getpath/xpath, U2 patcher, U4 matching, U5 script generation, end-to-end), then the round-trip oracle patch_tree(diff_trees(L,R),L) == R under the property's equality. Non-trivial = script has >= 2 action types or a move; distinct by (L, R, options)."
